@@ -254,6 +254,14 @@ pub fn run(out: &mut Out, seed: u64, tier: &str) {
         let mol = match catch(|| m.build()) { Some(x) => x, None => continue };
         for kind in ["uff", "rb"] { if let Some(ff) = FF::build(kind, &mol) { run_one(out, &format!("{}:{}", kind, m.name), m, Inner::Real(ff), None, &mut stats); } }
     }
+    // the budget on large systems, through Molecule::optimise (the default budget) and through an explicit one: 343 and 729 atoms
+    for side in [7usize, 9] {
+        let mut zs = vec![]; let mut xs = vec![];
+        for a in 0..side { for b in 0..side { for c in 0..side { zs.push(18usize); xs.push([7.0 * a as f64, 7.0 * b as f64, 7.0 * c as f64]); } } }
+        let grid = Mol { name: format!("ar-grid-{}", side * side * side), zs, xs };
+        run_one(out, &format!("const-norm 0.5 on {} atoms, default budget", grid.n()), &grid, Inner::ConstNorm { g: 0.5 }, None, &mut stats);
+        if side == 7 { run_one(out, &format!("const-norm 0.5 on {} atoms, budget 12", grid.n()), &grid, Inner::ConstNorm { g: 0.5 }, Some(12), &mut stats); }
+    }
     run_one(out, "budget-0", &base, Inner::Flat, Some(0), &mut stats);
     run_one(out, "budget-1", &base, Inner::Flat, Some(1), &mut stats);
     for _ in 0..(if tier == "thorough" { 40 } else { 8 }) {
